@@ -61,6 +61,11 @@ def generate(rnd, n):
             else:
                 out.append(form % (x, o, a, o, b))
             if rnd.random() < 0.3:
+                # other units whose dimensions cancel: the scale still does not stand alone
+                p1, p2 = rnd.choice([("ft", "m"), ("min", "s"), ("h", "s"), ("km", "mi"), ("kg", "lb"), ("in", "cm")])
+                out.append(rnd.choice(["%s %s %s/%s to %s", "%s %s*%s/%s to %s"]) % (x, a, p1, p2, b))
+                out.append("%s %s to %s %s/%s" % (x, a, b, p1, p2))
+            if rnd.random() < 0.3:
                 o2 = rnd.choice(OTHER)
                 if o2 != o:
                     out.append("%s %s*%s/%s to %s*%s/%s" % (x, o, a, o2, o, b, o2))
